@@ -31,6 +31,10 @@ func levelAModels(thorough bool) []sysCfg {
 		// process still alive when `crunch-run --kill` returns) must leave the process registered, so the
 		// container is not re-locked and started next to it
 		{Name: "1c-1i-hold", MaxCtr: 1, Cap: 1, Types: "A", Prios: "1", Events: "prio0 prio1 linger killfail", Budget: 1, Depth: 15},
+		// a successful `crunch-run --kill` whose answer arrives after the instance disappeared from the
+		// cloud listing (Pool.sync removed and closed the worker meanwhile): found a double close of the
+		// runner (fixed in /repo by f18184b); kept as a regression guard
+		{Name: "1c-1i-latekill", MaxCtr: 1, Cap: 1, Types: "A", Prios: "1", Events: "cancel gone slow-kill", Budget: 2, Depth: 12},
 		// an idle instance of an earlier dispatcher exists: late probe / start / lock answers against it
 		{Name: "1c-pre-f1", MaxCtr: 1, Cap: 1, Types: "A", Prios: "1", PreInst: "A", Events: "cancel crash restart" + slowCore, Budget: 1, Depth: 12},
 		// two idle instances, probes every third tick, cloud list every seventh: a start command that reaches the VM late
@@ -57,9 +61,9 @@ func levelAModels(thorough bool) []sysCfg {
 	}
 	if thorough {
 		ms = []sysCfg{
-			// a successful `crunch-run --kill` whose answer arrives after the instance disappeared from the
-			// cloud listing (Pool.sync removed and closed the worker meanwhile)
-			{Name: "1c-1i-latekill", MaxCtr: 1, Cap: 1, Types: "A", Prios: "1", Events: "cancel gone slow-kill", Budget: 2, Depth: 12},
+			// a successful `crunch-run --kill` / a probe whose answer arrives after the instance disappeared from
+			// the cloud listing (Pool.sync removed and closed the worker meanwhile)
+			{Name: "1c-1i-latekill2", MaxCtr: 1, Cap: 1, Types: "A", Prios: "1", Events: "cancel crash gone slow-kill slow-list slow-detach", Budget: 3, Depth: 13},
 			{Name: "1c-1i-hold-p3", MaxCtr: 1, Cap: 1, Types: "A", Prios: "1", Events: "prio0 prio1 linger killfail", Budget: 2, Depth: 18, ProbeTicks: 3},
 			{Name: "1c-1i-f2", MaxCtr: 1, Cap: 1, Types: "A", Prios: "1", Events: user + allFaults + allSlow, Budget: 2, Depth: 14},
 			{Name: "1c-pre-f2", MaxCtr: 1, Cap: 1, Types: "A", Prios: "1", PreInst: "A", Events: "cancel crash restart" + slowCore, Budget: 2, Depth: 12},
